@@ -30,7 +30,7 @@ use std::time::Duration;
 
 use pavex_session::store::errors::*;
 use pavex_session::store::{SessionRecord, SessionRecordRef, SessionStorageBackend};
-use pavex_session::SessionId;
+use pavex_session::{SessionId, SessionStore};
 use serde::{Deserialize, Serialize};
 use serde_json::{Value, json};
 use simcore::{EventLog, Rng, RunOut, Sim, Tape, Tier, Violation, driver::SimMeta};
@@ -131,7 +131,7 @@ fn marker_of(state: &HashMap<Cow<'static, str>, Value>) -> Option<u32> {
     if &state_for(v) == state { Some(v) } else { None }
 }
 
-async fn do_op(store: &dyn SessionStorageBackend, op: &Op) -> Ret {
+async fn do_op(store: &SessionStore, op: &Op) -> Ret {
     match op {
         Op::Create { id, ttl_ms, val } => {
             let st = state_for(*val);
@@ -426,7 +426,7 @@ fn ret_str(r: &Ret) -> String {
     }
 }
 
-async fn task_body(store: Arc<dyn SessionStorageBackend>, task: usize, ops: Vec<Op>, sh: Rc<RefCell<Shared>>, mut gate: Option<tokio::sync::mpsc::UnboundedReceiver<u64>>, done: Option<tokio::sync::mpsc::UnboundedSender<usize>>) {
+async fn task_body(store: Arc<SessionStore>, task: usize, ops: Vec<Op>, sh: Rc<RefCell<Shared>>, mut gate: Option<tokio::sync::mpsc::UnboundedReceiver<u64>>, done: Option<tokio::sync::mpsc::UnboundedSender<usize>>) {
     for op in ops {
         // sqlite arm: the operation counts as invoked when the simulator releases it (the moment
         // the client issues the call); the sequence number comes with the release
@@ -463,7 +463,7 @@ impl std::task::Wake for NoopWake {
 }
 
 /// Memory arm: the simulator's own executor; the tape picks the task to poll at every step.
-fn run_phase_memory(store: Arc<dyn SessionStorageBackend>, phase: &Phase, tape: &mut Tape, sh: &Rc<RefCell<Shared>>) {
+fn run_phase_memory(store: Arc<SessionStore>, phase: &Phase, tape: &mut Tape, sh: &Rc<RefCell<Shared>>) {
     let mut futs: Vec<Option<Pin<Box<dyn Future<Output = ()>>>>> = phase
         .tasks
         .iter()
@@ -490,7 +490,7 @@ fn run_phase_memory(store: Arc<dyn SessionStorageBackend>, phase: &Phase, tape: 
 }
 
 /// SQLite arm: tasks on a LocalSet, released through a turnstile by the tape.
-async fn run_phase_sqlite(store: Arc<dyn SessionStorageBackend>, phase: &Phase, tape: &mut Tape, sh: &Rc<RefCell<Shared>>) {
+async fn run_phase_sqlite(store: Arc<SessionStore>, phase: &Phase, tape: &mut Tape, sh: &Rc<RefCell<Shared>>) {
     let n = phase.tasks.len();
     let (done_tx, mut done_rx) = tokio::sync::mpsc::unbounded_channel::<usize>();
     let mut gates = Vec::new();
@@ -580,7 +580,7 @@ async fn run_phase_sqlite(store: Arc<dyn SessionStorageBackend>, phase: &Phase, 
             let op_statements = waiting.iter().filter(|w| w.as_str() != "ROLLBACK").count();
             if running == 0 && waiting.is_empty() && lock_waiting > 0 && snap.orphan_transactions == 0 && lock_waiting as usize + done == batch.len() {
                 let log = sh.borrow().log.lines.join("\n");
-                simcore::driver::harness_error(&format!("storesim(sqlite): every operation in flight is asleep on a lock (deadlock inside the store) lock_waiting={lock_waiting} done={done}/{}\n{log}", batch.len()));
+                simcore::driver::harness_error(&format!("storesim(sqlite): every operation in flight is asleep on a lock (deadlock inside the store) lock_waiting={lock_waiting} done={done}/{} gate: {}\n{log}", batch.len(), crate::gate::debug_state()));
             }
             if running == 0 && snap.orphan_transactions == 0 && !waiting.is_empty() && op_statements + lock_waiting as usize + done == batch.len() {
                 let k = tape.choose(waiting.len() as u32) as usize;
@@ -744,7 +744,8 @@ pub fn execute(script: &Script, tape: &mut Tape, keep_log: bool) -> RunOut {
     };
 
     if !sqlite {
-        let store: Arc<dyn SessionStorageBackend> = Arc::new(shadow_memory_store::InMemorySessionStore::new());
+        // through the real `SessionStore` front (store_.rs), as the session machinery uses it
+        let store: Arc<SessionStore> = Arc::new(SessionStore::new(shadow_memory_store::InMemorySessionStore::new()));
         for (pi, phase) in script.phases.iter().enumerate() {
             seams::advance_clock_ns(phase.advance_ms * 1_000_000);
             let now = seams::clock_ns();
@@ -790,7 +791,7 @@ pub fn execute(script: &Script, tape: &mut Tape, keep_log: bool) -> RunOut {
             }
             tokio::task::yield_now().await;
             crate::gate::enable(true);
-            let store: Arc<dyn SessionStorageBackend> = Arc::new(st);
+            let store: Arc<SessionStore> = Arc::new(SessionStore::new(st));
             for (pi, phase) in phases.iter().enumerate() {
                 seams::advance_clock_ns(phase.advance_ms * 1_000_000);
                 let now = seams::clock_ns();
